@@ -338,7 +338,12 @@ class LruRun:
                 self.flags.add("hit")
                 if call["blocked"] and call["overlap"] is not None:
                     self.flags.add("reuse_first_result")
-                latest = max((e for e in self.execs if e["key"] == k and e["outcome"] and e["outcome"][0] == "ret"),
+                # the entry was read at the lookup (hit, possibly followed by the checkpoint) or, for a caller
+                # that waited for the flight, at its resumption
+                read_step = call["begin"] if call.get("hit_counted") else self.stepno
+                call["read_step"] = read_step
+                latest = max((e for e in self.execs if e["key"] == k and e["outcome"] and e["outcome"][0] == "ret"
+                              and e["end"] <= read_step),
                              key=lambda e: e["end"], default=None)
                 if latest is not None and latest["outcome"][1] != val:
                     self.mon.append(f"stale value: caller {c} key {k} was served {val} although the latest "
@@ -472,7 +477,7 @@ class LruRun:
             if cl["result"] and cl["result"][0] == "ok" and cl["exec"] is None:
                 src = self.stored_at.get(cl["result"][1])
                 if src is not None:
-                    iv.append((src[1], cl["end"], cl["key"]))
+                    iv.append((src[1], cl.get("read_step", cl["end"]), cl["key"]))
         for t in sorted({b for (_, b, _) in iv}):
             ks = {k for (a, b, k) in iv if a <= t <= b}
             if len(ks) > self.effmax:
